@@ -419,12 +419,32 @@ def _parse_int(x):
         x = mkstr([e if isinstance(e, int) else z3.ZeroExt(CW - 8, e) for e in x.els])
         if isinstance(x, str):
             return builtins.int(x)
+    # non-ASCII decimal digits (Unicode category Nd) are accepted by int(): map them to their ASCII digit first (Nd code points come in runs of ten)
+    from .rex import _nd_ranges
+    mapped = []
     for c in x.els:
-        if not isinstance(c, int) and cur().feasible(z3.UGE(c, 128)):
-            if cur().decide(z3.UGE(c, 128)):
-                raise ZXError('int(str) with non-ASCII characters is outside the modelled domain')
-        elif isinstance(c, int) and c >= 128:
-            raise ZXError('int(str) with non-ASCII characters is outside the modelled domain')
+        if isinstance(c, int):
+            if c >= 128:
+                import unicodedata
+                ch = chr(c)
+                if unicodedata.category(ch) == 'Nd':
+                    c = 48 + unicodedata.digit(ch)
+            mapped.append(c)
+            continue
+        if cur().feasible(z3.UGE(c, 128)) and cur().decide(z3.UGE(c, 128)):
+            nd = [r for r in _nd_ranges() if r[0] >= 128]
+            if cur().decide(_in_ranges(c, nd)):
+                e = c
+                for lo, hi in nd:
+                    e = z3.If(z3.And(z3.UGE(c, lo), z3.ULE(c, hi)), z3.URem(c - lo, 10) + 48, e)
+                mapped.append(z3.simplify(e))
+            else:
+                mapped.append(c)      # neither digit nor (after strip) whitespace -> ValueError below
+            continue
+        mapped.append(c)
+    x = mkstr(mapped)
+    if isinstance(x, str):
+        return builtins.int(x)
     t = x.strip()
     els = to_els(t)
     if not els:
